@@ -371,6 +371,50 @@ pub fn check(case: &C02Case, st: &mut Stats) -> Verdict {
             }
         }
     }
+    // 7b. issuers whose identifiers are near-identical strings: a token signed by A's key whose
+    // iss is a *different string* must be verified under the key the resolver returns for exactly
+    // that string (here: B's key), whatever normalisation might suggest
+    {
+        let base_names = ["https://issuer.example", "https://issuer.example/tenant", "Issuer-A", "issuer"];
+        let a_name = base_names[ch.pick(base_names.len())].to_string();
+        let variants: Vec<String> = vec![
+            format!("{}/", a_name),
+            format!("{}//", a_name),
+            format!("{} ", a_name),
+            format!(" {}", a_name),
+            a_name.to_uppercase(),
+            a_name.to_lowercase(),
+            format!("{}\u{0}", a_name),
+            format!("{}#", a_name),
+            format!("{}?", a_name),
+            format!("{}.", a_name),
+            a_name.replace("https://", "http://"),
+            a_name.replace("issuer", "ıssuer"),
+        ];
+        let by_iss = Resolver::ByIss { name_a: a_name.clone(), a: (spec.alg, KeyId::Primary), b: (spec.alg, KeyId::Second) };
+        let v = &variants[ch.pick(variants.len())];
+        if *v != a_name {
+            let mut claims = spec.claims.clone();
+            claims["iss"] = json!(v);
+            if let Out::Ok(forged) = sut::issue_keyed(&IssueSpec { claims, ..spec.clone() }, KeyId::Primary) {
+                if let Some(pf) = sut::present(&forged, spec.fmt, &Map::new(), None).ok() {
+                    st.sub(1);
+                    st.label("tamper=issuer impersonation via a near-identical iss");
+                    st.nontrivial_sub(&format!("near-iss:{}", v));
+                    match sut::verify_full(&pf, spec.fmt, &by_iss, None, None, None) {
+                        Out::Err(_) => {}
+                        Out::Ok(c) => {
+                            return Err(Failure::new(
+                                "accepted:issuer impersonation (near-identical iss)",
+                                format!("a token signed with the key of issuer {:?} but claiming iss={:?} was accepted although the resolver maps every iss other than exactly {:?} to another key\n  token: {}\n  claims: {}", a_name, v, a_name, sut::clip(&pf, 3000), c),
+                            ))
+                        }
+                        Out::Panic(p) => return Err(Failure::new(panic_sig("SDJWTVerifier::new", &p), format!("verifier panicked: {}", p))),
+                    }
+                }
+            }
+        }
+    }
     let _ = render;
     Ok(())
 }
